@@ -1,0 +1,9 @@
+//go:build !verif
+
+package cache
+
+import "sync"
+
+// rwMutex is sync.RWMutex; with the verif build tag it is a wrapper that lets a test harness
+// perturb the schedule at lock boundaries (see lock_hook_on.go).
+type rwMutex = sync.RWMutex
